@@ -273,6 +273,25 @@ def gen_cases(ctx, edge_pairs):
         ta = rng.choice(["i8", "u8", "i16"])
         tp = rng.choice([t for t in ("i8", "u8", "i16", "u16") if t != ta])
         emit({"cls": "prop1", "op": "cast", "p": rand_iv(rng, tp, pick_mode(rng, tp in ("i8", "u8"))), "a": rand_iv(rng, ta, pick_mode(rng, ta in ("i8", "u8")))})
+    # 4b. NullableInterval (three-valued): apply_operator, not, is_true / is_false / is_unknown
+    def niv(nk, i):
+        return {"nk": nk, "iv": i}
+    truth = [niv("null", biv((0, 0)))] + [niv(nk, biv(x)) for nk in ("maybe", "notnull") for x in BOOLS]
+    for op in ("and", "or", "isdistinct", "isnotdistinct", "eq"):
+        for x in truth:
+            for y in truth:
+                emit({"cls": "nbin", "op": op, "a": x, "b": y})
+    for op in ("not", "is_true", "is_false", "is_unknown"):
+        for x in truth:
+            emit({"cls": "nun", "op": op, "a": x})
+    for op in ARITH + CMP + ["isdistinct", "isnotdistinct"]:
+        for k in range(22 * m):
+            ty = rng.choice(["i8", "i8", "u8", "i16"])
+            a, b = rand_iv(rng, ty, rng.choice(["small", "small", "nearedge"])), rand_iv(rng, ty, rng.choice(["small", "small", "nearedge"]))
+            if rng.random() < 0.3:          # single points make "certainly equal" reachable
+                b = dict(a) if rng.random() < 0.5 and not (a["lu"] or a["hu"]) and a["lo"] == a["hi"] else iv(ty, *([rng.choice([0, 1, 5])] * 2))
+            emit({"cls": "nbin", "op": op, "a": niv(rng.choice(["null", "maybe", "notnull", "notnull"]), a),
+                  "b": niv(rng.choice(["null", "maybe", "notnull", "notnull"]), b)})
     # 5. expression graphs
     for k in range(200 * m):
         emit(expr_case(rng, "bounds"))
@@ -312,6 +331,9 @@ def has0(i):
 def finding_key(ev, swap_ok=False):
     """Narrow key of a confirmed rejection (compared with known_findings.json)."""
     cls, op = ev.get("cls"), ev.get("op", "")
+    if cls == "nbin" and op in ARITH and ev["a"]["nk"] != "null" and ev["b"]["nk"] != "null" and ev.get("rk") == "niv" and ev["r"]["nk"] != "null":
+        # NullableInterval::apply_operator delegates to the Interval operator: the same two node-level findings apply
+        return finding_key(dict(ev, cls="bin", a=ev["a"]["iv"], b=ev["b"]["iv"], r=ev["r"]["iv"]), swap_ok)
     if cls == "bin" and op == "div" and (neg_to_zero(ev["a"]) or neg_to_zero(ev["b"])):
         return KF_DIV0
     if cls == "bin" and op == "mul" and has0(ev["a"]) and has0(ev["b"]):
@@ -377,8 +399,8 @@ def validate(ctx, events, procs, tag="val"):
     def cost(e):
         c = 50
         for k in ("a", "b"):
-            if k in e and e["cls"] in ("bin", "prop2"):
-                c *= max(1, size(e[k]))
+            if k in e and e["cls"] in ("bin", "prop2", "nbin"):
+                c *= max(1, size(e[k]["iv"] if e["cls"] == "nbin" else e[k]))
         if e["cls"] in ("bounds", "update"):
             for r in e["ranges"]:
                 c *= size(r)
@@ -475,7 +497,7 @@ def run(ctx):
     if ctx.replay:
         rp = json.load(open(ctx.replay))
         case = dict(rp["case"], id=0)
-        for k in ("rk", "r", "r1", "r2", "rr", "flag", "rn", "rt", "msg", "mid"):
+        for k in ("rk", "r", "r1", "r2", "rr", "flag", "rn", "rt", "msg", "mid"):    # recorded results are recomputed
             case.pop(k, None)
         write_ndjson(ctx.path("cases.ndjson"), [case])
         run_harness(ctx, "vfacts", ["c23", "--in", ctx.path("cases.ndjson"), "--out", ctx.path("events.ndjson")])
